@@ -67,6 +67,9 @@ type HTTPGroup struct {
 	domain          string
 	location        string
 	routeByHTTPUser string
+	// credentials of the group's route (the first member's); every member must be configured alike
+	username string
+	password string
 
 	// CreateConnFuncs indexed by proxy name
 	createFuncs map[string]vhost.CreateConnFunc
@@ -106,9 +109,12 @@ func (g *HTTPGroup) Register(
 		g.domain = routeConfig.Domain
 		g.location = routeConfig.Location
 		g.routeByHTTPUser = routeConfig.RouteByHTTPUser
+		g.username = routeConfig.Username
+		g.password = routeConfig.Password
 	} else {
 		if g.group != group || g.domain != routeConfig.Domain ||
-			g.location != routeConfig.Location || g.routeByHTTPUser != routeConfig.RouteByHTTPUser {
+			g.location != routeConfig.Location || g.routeByHTTPUser != routeConfig.RouteByHTTPUser ||
+			g.username != routeConfig.Username || g.password != routeConfig.Password {
 			err = ErrGroupParamsInvalid
 			return
 		}
